@@ -627,6 +627,32 @@ int main()
                    (sc.s ? har::hex(sc.s->payload) : "-"));
         } else if(!sc.setupOk) {
           continue;
+        } else if(w[0] == "upgrade" && w.size() >= 2) {
+          // upgrade <side>: a BUFFERED endpoint that has been used through the synchronous API so far is handed to a
+          // driver of its own (SocketTcpAsync built from the SocketTcpBuffered): whatever the synchronous calls left in
+          // the TLS glue (remaining budget, cached WANT_READ/WANT_WRITE) must not leak into the driver's calls
+          Ep *e = sc.ep(w[1]);
+          if(e && e->kind == "buffered" && e->buffered) {
+            e->driver = std::make_shared<Driver>();
+            e->dname = "d" + e->name;
+            Ep *pe = e;
+            e->async.emplace(std::move(*e->buffered), *e->driver,
+                             [pe](BufferPtr b) {
+                               vos::log_note("rx " + pe->name + " " + std::to_string(b->size()));
+                               pe->got.append(*b);
+                             },
+                             [pe](Address, char const *why) {
+                               vos::log_note(std::string("disc ") + pe->name + " " + why);
+                               pe->disc++;
+                               pe->failed = true;
+                             });
+            e->buffered.reset();
+            e->kind = "async";
+            // what is left of the payload goes through the queue from now on
+            e->payload = e->payload.substr(std::min(e->sentOff, e->payload.size()));
+            e->sentOff = 0;
+            har::obs("upgraded " + e->name + " " + e->dname + " rest=" + std::to_string(e->payload.size()));
+          }
         } else if(w[0] == "poison") {
           // F15: another TLS socket OF THIS THREAD whose handshake never finishes (a silent plain TCP peer) and that is
           // destroyed in that state (SSL_shutdown fails with "shutdown while in init": an entry in the thread's OpenSSL
